@@ -592,6 +592,21 @@ class ExcelModel:
 
         res = dsp()
 
+        # Volatile cells (NOW, RAND, ...) and their dependents are not frozen.
+        from ..functions import COMPILING
+        stack, succ = [], dsp.dmap.succ
+        for k, d in dsp.function_nodes.items():
+            f = getattr(d['function'], 'func', None)
+            if COMPILING in getattr(getattr(f, 'dsp', None), 'nodes', ()):
+                stack.append(k)
+        while stack:
+            for k in succ[stack.pop()]:
+                if k in res:
+                    res.pop(k)
+                    stack.append(k)
+                elif k in dsp.function_nodes:
+                    stack.append(k)
+
         dsp = dsp.get_sub_dsp_from_workflow(
             outputs, graph=dsp.dmap, reverse=True, blockers=res,
             wildcard=False
